@@ -104,6 +104,29 @@ CHECKS = {
              'their declared total length.',
         note='Trusted: mc.ref.message. Names are read from definitions/*.json (names only). Two-dot and empty '
              'expressions are outside the statement.'),
+    'C11': dict(
+        level='model_checking', design='DESIGN.md §4 C11',
+        technique='exhaustive enumeration of all streams s0 m1 s1 .. mj sj over a 7-message pool and 9 separators (full '
+                  'product for j<=1, thorough j<=2; deviation-bounded non-empty separators for j=2..4), each scanned in '
+                  'full and metadata-only mode without and with 5 filter expressions; split / count commands in-process',
+        text='For every stream of the bounded space the real scanner must yield exactly the messages (satisfying the '
+             'filter, judged on the metadata the reference builder wrote) in order with their exact bytes; payloads contain '
+             'the octet-aligned bytes BUFR and 7777 in the data section and in section 2; separators include partial '
+             'signatures. Cut points are known by construction.',
+        note='Trusted: mc.ref.message. Separators never contain the start signature (statement). Category-11 messages in the '
+             'pool have no subsets (table definitions are C20).'),
+    'C12': dict(
+        level='fault_enumeration', design='DESIGN.md §4 C12',
+        technique='exhaustive fault enumeration: every truncation point of every pool / corpus message below a size limit '
+                  '(boundary sets above it); every subset of stream positions (up to the deviation bound) damaged by every '
+                  'fault of the menu (stop signature bytes, undefined element/sequence at every descriptor position, '
+                  'section length +-1) x full/metadata-only x continue/stop; trailing bytes; command line',
+        text='Every proper prefix must fail to decode; trailing bytes must not change the decode; in every damaged stream '
+             'the undamaged messages must be delivered unchanged and in order, damaged ones never by the full scan, the scan '
+             'may only end with the library error type (and must, without continue-on-error), and the command line prints '
+             'an Error: line without a traceback.',
+        note='The harness applies the faults, so it knows the damage. Metadata-only scanning may deliver a damaged message '
+             'with its own bytes (damage invisible in that mode; C17). Prefix failures may be any exception type.'),
     'C05': dict(
         level='model_checking', design='DESIGN.md §4 C05',
         technique='exhaustive enumeration of ALL columns over the full raw domain (n<=3,w<=3; thorough n<=4,w<=4) per '
